@@ -488,6 +488,9 @@ def _count_events(name, mode, opcode, deep):
     return max(counts)      # history-dependent paths (caches): an upper estimate is enough
 
 
+END = 10 ** 8       # pre-emption point "after A's last event"
+
+
 def _gname(name, mode, opcode, deep):
     return "%s/%s/%s%s" % (name, mode, "opcode" if opcode else "line", "+callees" if deep else "")
 
@@ -573,9 +576,13 @@ def _lazy_part(rep, tier, wd, J):
     for (name, mode, opcode, deep, full, sample) in plan:
         K = _count_events(name, mode, opcode, deep)
         gname = _gname(name, mode, opcode, deep)
-        idxs = list(range(K + 1))
+        # some points past the sequential count: a run whose path is longer (history-dependent state in a callee)
+        # is then still stopped near its end, a run that is through is recorded as "A has finished"
+        K2 = K + (min(128, max(16, K // 4)) if deep else 1)
+        idxs = list(range(K2 + 1))
         if sample is not None and sample < K:       # the first and the last events (publication) always, the rest sampled
-            idxs = sorted(x for x in set(range(0, 150)) | set(range(K - 60, K + 1)) | set(r.sample(range(K + 1), sample)) if 0 <= x <= K)
+            idxs = sorted(x for x in set(range(0, 150)) | set(range(K - 60, K2 + 1)) | set(r.sample(range(K + 1), sample)) if 0 <= x <= K2)
+        idxs.append(END)                            # ... and one run in which A is certainly through
         groups[gname] = {"preemption_points_total": K + 1, "points_run": len(idxs), "B_operations_per_point": 0}
         for j, idx in enumerate(idxs):
             ch = j // CH
@@ -711,11 +718,14 @@ def run(tier):
         _fine_refinement(rep, tier, wd)
     rep.cov["exhaustive"] = True
     rep.cov["explanation"] = ("RWLock: complete state graphs of the bounded instances, every edge replayed on the real lock (%d edges); "
-                              "lazy table: every line-level (tiny curve and scale(): also byte-code level) pre-emption point of thread A"
-                              "%s, %d points" % (edges, " (NIST256p table construction: also byte-code level)" if tier == "thorough" else "", nev))
+                              "lazy table / rescaling / table of a Jacobian-form generator: thread A stopped at the lines (tiny curve and scale(): "
+                              "also byte codes) of _maybe_precompute()/scale() AND of every library function they call%s, %d points"
+                              % (edges, " (NIST256p: callees and byte codes too)" if tier == "thorough" else
+                                 " (NIST256p table: every line of _maybe_precompute itself, lines inside callees sampled)", nev))
     rep.assumptions += [
         "threading.Lock: acquire blocks while held, release by any thread frees it; each controlled lock wraps a real lock that must agree",
-        "CPython switches threads only between byte codes (GIL); line-level pre-emption for the NIST256p table in the quick tier, byte-code level in the thorough tier",
+        "CPython switches threads only between byte codes (GIL); NIST256p table: line-level pre-emption (callee lines sampled) in the quick tier, all callee lines and byte-code level in the thorough tier",
+        "thread A is pre-empted inside _maybe_precompute()/scale() and everything below them in the ecdsa package; pre-emption of A inside other entry points (x(), y(), __eq__, mul_add) is not enumerated",
         "pre-emption inside the lock code only at lock calls: the light-switch counters are accessed only while the switch mutex is held (checked: counter values are compared after every step)",
         "bounded instances: up to 3 readers + 2 writers x 2 passes / 3+3 x 1 (model); walk on the real lock: 2+2 x 1 and 2+1 x 2 (quick), also 2+2 x 2, 3+2 x 1, 2+3 x 1, 3+3 x 1 (thorough)",
         "thread B's operations are complete (not themselves pre-empted); two concurrent builders are covered only as 'B builds its own table while A is stopped'",
